@@ -170,6 +170,22 @@ def _rules(ck, prog, cfg):
              any(x.startswith("call:get") for x in items), "R18.2", "KeyDigest::new:keeps-stamp-and-payload" + _tag(cfg),
              "the value hash no longer covers the full stamp (time, replica id) and the LWW payload bytes (fed: %s): two values that differ "
              "only there get equal digests and are reported 'in sync'" % sorted(items), kd.where(), detail="fed: %s" % sorted(items))
+    # rule H over everything that computes a digest: no unordered iteration may feed a sequential hasher or an ordered list
+    from . import hashorder
+    nH = 0
+    for g in prog.lib_fns():
+        if g.file != "src/replication/anti_entropy.rs" or g.kind not in ("fn", "method", "closure"):
+            continue
+        if not re.search(r"anti_entropy::(KeyDigest|MerkleNode|StateDigest)::", g.id) or re.search(r"StateDigest::from_state", g.id):
+            continue        # from_state: decided above (sorted before the fold)
+        its = hashorder.hash_iterations(g)
+        nH += len(its)
+        for r in hashorder.analyse(prog, g):
+            gid = re.sub(r"\{closure#\d+\}", "{closure}", g.id).replace("replication::anti_entropy::", "")
+            ck.bad("R18.1", "%s:%s%s" % (gid, r["kind"], _tag(cfg)),
+                   "a digest is computed from an unordered iteration: %s; equal states built or merged in a different order get different "
+                   "digests (perpetual false 'divergent')" % r["what"], g.where(r["ln"]))
+    ck.extra["digest_fn_hash_iterations"] = nH
     # ---- R18.3
     sync = prog.one("simulator::multi_node::MultiNodeSimulation::run_anti_entropy_sync")
     sel = [(b, t) for b, t in sync.calls() if is_callee(t, r"AntiEntropyManager::get_keys_in_buckets$")]
@@ -195,6 +211,19 @@ def _rules(ck, prog, cfg):
         ck.check(ok, "R18.3", "sync:bidirectional" + _tag(cfg),
                  "the sync does not apply each side's selection to the other side (%s): one replica keeps its divergent keys" % pairs,
                  sync.where(app[0][1]["ln"]), detail="A->B and B->A: %s" % pairs)
+        # what was selected is what is applied: the selection is not narrowed in between
+        for sb_, st_ in sel:
+            if "p" in st_["dest"]:
+                continue
+            vals, refs = lib2.value_aliases(sync, st_["dest"]["l"])
+            for b2, t2 in sync.calls():
+                if t2["args"] and is_callee(t2, r"Vec::<.*>::(retain|retain_mut|truncate|drain|clear|pop|remove|swap_remove|dedup\w*|split_off)$"):
+                    a0 = op_place(t2["args"][0]) if "c" not in t2["args"][0] else None
+                    if a0 is not None and a0["l"] in (vals | refs):
+                        ck.bad("R18.3", "sync:selection-narrowed:%s%s" % (callee(t2).rsplit("::", 1)[-1], _tag(cfg)),
+                               "the keys selected from the divergent buckets are narrowed (%s) before they are applied to the peer: an update "
+                               "the peer lacks can be filtered out on every round, so the two sides never hold the merge"
+                               % callee(t2).rsplit("::", 1)[-1], sync.where(t2["ln"]))
         # both applies on every path that selected
         for ab, at in app:
             ck.check(all(sync.dominates(sb, ab) for sb, _ in sel), "R18.3", "sync:apply-after-selection#%d%s" % (app.index((ab, at)), _tag(cfg)),
